@@ -7,11 +7,11 @@ CONSTANTS
   ClientForms <- QForms
   ClientCodecs <- QCodecs
   ClientComps <- QComps
-  Methods <- QMethods
+  Methods <- FMethods
   MaxMsgs = 2
   EndCodes <- OkOnly
   HttpStatuses <- NoStatuses
-  FlagValues <- TFlags
+  FlagValues <- MFlags
   Emit = TRUE
 INVARIANT TypeOK
 INVARIANT EmitInv
